@@ -16,6 +16,8 @@
 #   M12 copy_or_downsample: src_lg_k <= tgt  ->  >=  (keeps the source's larger lg_k)              -> lgk_not_min
 #   M13 rvalue shortcut taken although sketch lg_k > lg_max_k (bound dropped)                     -> lgk_not_min
 #   S3  (seeded C04-3) hll_union::get_upper_bound without check_rebuild_kxq_cur_min                -> estimate_depends_on_call_order
+#   S4  (seeded C04-4) && shortcut swaps in a LIST/SET-mode HLL_8 sketch with lg_k < lg_max_k                 -> lgk_not_min, order_dependent
+#   S6  (seeded C04-6) hll_union::update(uint32_t) zero-extends instead of sign-extending               -> input_lost / coupons_wrong
 #   (and removing either repair: F1 -> input_lost / union_emptiness, F10 -> lgk_not_min_after_reset / order_dependent)
 # Behaviour-preserving changes confirmed NOT reported:
 #   H1  eager instead of deferred rebuild (check_rebuild_kxq_cur_min at the end of mergeHll)                              [DESIGN s9]
@@ -36,7 +38,9 @@ RULE = ('operation scripts over hll_sketch registers and hll_union registers: in
         'lg_max_k 4..10 (3 and 22 refused) fed <= 5 inputs by const& or by && with raw coupons / real items in between, '
         'get_result(HLL_4/6/8), the four estimate accessors, the union accessors and reset interleaved; every estimator entry point '
         '(estimate, composite, lower/upper bound 1..3) called first and called last on fresh copies of the union after every update; directed families: first '
-        'input HLL with lg_k > lg_max_k followed by a second HLL input (F1), reset after a down-sampling input (F10), the same '
+        'input HLL with lg_k > lg_max_k followed by a second HLL input (F1), every update() overload of hll_union on edge items (sign boundaries of the narrow '
+        'integers, -0.0/NaN, empty string, raw bytes) against the same items through a plain hll_sketch, a coupon-mode HLL_8 sketch of every lg_k given FIRST by && '
+        'to an empty / reset union and then promoted (twin union by const&), reset after a down-sampling input (F10), the same '
         'multiset of inputs presented to several unions in different orders and with different interleavings (permutation groups); '
         'non-trivial = the case down-sampled, swapped a list gadget with an HLL source, promoted the gadget, used the rvalue '
         'shortcut, reset, or compared permutations')
@@ -73,6 +77,41 @@ def coupons(rng, n, pool=None):
         else:
             out.append(rcoupon(rng))
     return out
+
+def dbits(x):
+    return struct.unpack('<Q', struct.pack('<d', x))[0]
+
+def fbits(x):
+    return struct.unpack('<I', struct.pack('<f', x))[0]
+
+# one item per update() overload edge: [kind, args...] (kinds as in HllDefs.item_bytes); narrow integers at the sign boundary
+EDGE_ITEMS = ([[0, v] for v in (0, 1, 2**31, 2**32 - 1, 2**63, 2**64 - 1)] +
+              [[1, v] for v in (0, -1, 2**31, -2**31, 2**63 - 1, -2**63)] +
+              [[5, v] for v in (0, 1, 0x7fffffff, 0x80000000, 0xffffffff, 0xfffffffe)] +
+              [[6, v] for v in (0, 1, 0x7fffffff, 0x80000000, 0xffffffff, 0xdeadbeef)] +
+              [[7, v] for v in (0, 0x7fff, 0x8000, 0xffff)] + [[8, v] for v in (0, 0x7fff, 0x8000, 0xffff)] +
+              [[9, v] for v in (0, 0x7f, 0x80, 0xff)] + [[10, v] for v in (0, 0x7f, 0x80, 0xff)] +
+              [[3, v] for v in (dbits(0.0), dbits(-0.0), dbits(1.0), dbits(-1.5), 0x7ff8000000000000, 0x7ff0000000000001, 0xfff8000000000000,
+                                0x7ff0000000000000, 0xfff0000000000000, 1)] +
+              [[4, v] for v in (fbits(0.0), 0x80000000, fbits(1.0), fbits(-2.5), 0x7fc00000, 0x7f800001, 0xffc00000, 0x7f800000, 1, 0x007fffff)] +
+              [[2], [2, 97], [2, 0, 1, 2], [2] + list(range(33)), [11], [11, 0], [11] + list(range(17)), [11, 255] * 1])
+
+def ritem(rng):
+    k = rng.random()
+    if k < 0.35:
+        return list(rng.choice(EDGE_ITEMS))
+    kind = rng.choice([0, 1, 5, 6, 7, 8, 9, 10, 3, 4, 2, 11])
+    if kind in (0, 3):
+        return [kind, rng.randrange(2**64)]
+    if kind == 1:
+        return [1, rng.randrange(-2**63, 2**63)]
+    if kind in (5, 6, 4):
+        return [kind, rng.choice([rng.randrange(2**31, 2**32), rng.randrange(2**32)])]
+    if kind in (7, 8):
+        return [kind, rng.choice([rng.randrange(2**15, 2**16), rng.randrange(2**16)])]
+    if kind in (9, 10):
+        return [kind, rng.randrange(256)]
+    return [kind] + [rng.randrange(256) for _ in range(rng.choice([0, 1, 7, 8, 9, 16, 17, 40]))]
 
 MODES = ['empty', 'emptyfull', 'list', 'set', 'hll', 'hll', 'hllfull']
 
@@ -189,6 +228,57 @@ def gen(rng, tier):
         ops += [[11, 0, 2, 0], [11, 1, 2, 1]]
         g = [final_queries(rng, ops, 0)[0], final_queries(rng, ops, 1)[0]]
         add(ops, tags, 'f10_', groups=[g])
+
+    # ---- raw ITEMS through every hll_union::update overload vs the same items through a plain hll_sketch of lg_k = lg_max_k ----
+    for ci in range(8 if quick else 80):
+        lgmax = lgs[ci % len(lgs)]
+        ops = [[10, 0, lgmax], [1, 0, lgmax, 2, 0], [1, 1, lgmax, rng.randrange(3), 0]]
+        tags = {'items-all-overloads'}
+        items = [list(x) for x in EDGE_ITEMS] if ci % 2 == 0 else []
+        items += [ritem(rng) for _ in range(rng.choice([5, 40, 150]))]
+        if ci % 4 >= 2:
+            rng.shuffle(items)
+        group = []
+        for j, it in enumerate(items):
+            ops += [[20, 0] + it, [2, 0] + it, [2, 1] + it]
+            if j in (0, 3, 6, 7, 8, 24, 25, 26, 48, 49, 50, 96, 97, 98) or j == len(items) - 1:
+                ops += [[14, 0, 2], [6, 0], [6, 1]]
+                group.append([len(ops) - 3, len(ops) - 2, len(ops) - 1])
+        ops += [[20, 0, 12, 1], [20, 0, -1, 1], [2, 0, 99]]
+        final_queries(rng, ops, 0)
+        add(ops, tags, 'item', groups=group)
+
+    # ---- rvalue shortcut boundary: an EMPTY (fresh or reset) union receives first, by &&, a LIST/SET-mode HLL_8 sketch with lg_k < lg_max_k,
+    #      == lg_max_k, > lg_max_k; then enough raw coupons / inputs to promote the gadget; a twin union receives the same by const& ----
+    pairs = [(lgmax, lgk) for lgmax in lgs for lgk in lgs]
+    if quick:
+        pairs = [pq for pq in pairs if pq[1] <= pq[0] + 1]
+    for ci, (lgmax, lgk) in enumerate(pairs):
+        for mode in (['list', 'set'] if lgk >= 8 else ['list']):
+            ops = []; tags = {'rvalue-on-empty', 'rvalue-coupon-mode-first'}; pool = []
+            mk_sketch(rng, ops, 0, lgk, 2, mode, pool, cap)
+            mk_sketch(rng, ops, 1, rng.choice(lgs), rng.randrange(3), rng.choice(['hll', 'list', 'hllfull']), pool, cap)
+            promo = coupons(rng, thr(lgmax) + 6)
+            while len(set(promo)) <= thr(lgmax) + 2:
+                promo.append(rcoupon(rng))
+            ops += [[10, 0, lgmax], [10, 1, lgmax]]
+            if ci % 2:
+                for u in (0, 1):
+                    ops += [[11, u, 1, u], [16, u]]
+                tags.add('reset')
+            ops += [[11, 0, 0, 1], [11, 1, 0, 0]]
+            g1 = []
+            for u in (0, 1):
+                ops += [[17, u], [14, u, 2]]; g1.append(len(ops) - 1)
+            how = ci % 3
+            if how == 0:
+                ops += [[12, 0] + promo, [12, 1] + promo]
+            elif how == 1:
+                ops += [[11, 0, 1, 0], [11, 1, 1, 1]]
+            else:
+                ops += [[12, 0] + promo[:5], [12, 1] + promo[:5], [11, 0, 1, 1], [11, 1, 1, 0], [12, 0] + promo[5:], [12, 1] + promo[5:]]
+            g2 = [final_queries(rng, ops, 0)[0], final_queries(rng, ops, 1)[0]]
+            add(ops, tags, 'rvl', groups=[g1, g2])
 
     # ---- estimator entry points: every getter first / last on copies, after EVERY update, >= 2 HLL-mode inputs incl. down-sampling ----
     for ci in range(12 if quick else 120):
@@ -388,6 +478,8 @@ def oracle(case, irecs, mrecs):
         if q is None or sp is None:
             continue
         who = 'sketch' if op[0] == 6 else 'get_result'
+        if op[0] == 6:
+            obs[i] = q
         if op[0] == 14:
             obs[i] = q
             if q['ty'] != op[2]:
@@ -418,7 +510,7 @@ def oracle(case, irecs, mrecs):
             i0, q0 = seen[0]
             lg = min(q['lgk'], q0['lgk'])
             if q['lgk'] != q0['lgk'] or content_regs(q, lg) != content_regs(q0, lg):
-                fails.append(dict(sig='order_dependent', what='the same inputs in another order / value category give lg_k %d vs %d%s'
+                fails.append(dict(sig='order_dependent', what='the same inputs in another order / value category / through a plain sketch give lg_k %d vs %d%s'
                                   % (q0['lgk'], q['lgk'], '' if q['lgk'] != q0['lgk'] else ' and different registers'), op_index=i))
                 break
     return fails
